@@ -103,6 +103,7 @@ def want(cfg, m, rng, tracker, p):
 COMP = Component(
     spec="Queue", name="BasicFifo/FIFO", build=build, methods=methods,
     has_arg=lambda m: m == "write", gen_arg=gen_arg, tracker=Tracker, want=want, module=__name__,
+    shadow=lambda cfg: ["read", "write"],
     trace_extra='PubMatches == (cfg.kind = "BasicFifo") => Line.pub.level = st.lvl',
     trace_extra_names=["PubMatches"],
 )
